@@ -62,6 +62,14 @@ example : Lic.accepts [77, 73, 84, 32, 65, 78, 68, 32, 40, 41] = false := by dec
 accept the same token lists (the key lemma behind `accepts_iff_spdx_wf`) -/
 theorem recogniser_is_machine (ts : List Tok) : Spdx.WF ts = goC ts 0 .lp := WF_eq_goC ts
 
+/-- the recogniser decides the declarative SPDX grammar `Spdx.Compound` (simple, simple WITH exception,
+AND, OR, parentheses), so "accepted" can be read off the grammar directly -/
+theorem WF_iff_compound (ts : List Tok) : Spdx.WF ts = true ↔ Spdx.Compound ts := LicP.WF_iff_compound ts
+
+/-- accepted ⇔ the token list of the input is derivable in the SPDX grammar -/
+theorem accepts_iff_grammar (s : Str) : Lic.accepts s = true ↔ Spdx.Compound (Spdx.lex s) := by
+  rw [accepts_iff_spdx_wf]; exact WF_iff_compound _
+
 /-! ### what an accepted result looks like -/
 
 theorem spec_some {ts : List Tok} {r : Str} (h : Spdx.canon ts = some r) :
